@@ -15,6 +15,7 @@ import (
 	"os/exec"
 	"path"
 	"path/filepath"
+	"regexp"
 	"runtime"
 	"sort"
 	"strconv"
@@ -36,13 +37,15 @@ func init() {
 	register("c18", "C18 extract: run the real extractor on std and random packages, compare with go/types and compile the output", runC18)
 }
 
+var c18LongNumber = regexp.MustCompile(`CFloat \(?-?[0-9]{200,}|CFloat \(?-?[0-9]+\)? [0-9]{200,}`)
+
 var c18BaselineRestricted = map[string]bool{"osExit": true, "osFindProcess": true, "logDefault": true, "logFatal": true, "logFatalf": true, "logFatalln": true, "logLogger": true, "logNew": true}
 
 // always checked: float constants (math), the sandboxed symbols (os, log), interfaces with variadic methods, embedded
 // interfaces and unexported methods (io, fmt, sort, context, io/fs, database/sql/driver, go/constant, reflect), many constants (go/token, time)
 var c18Always = []string{"math", "os", "log", "io", "fmt", "sort", "strings", "time", "go/token", "context", "database/sql/driver", "io/fs", "go/constant", "reflect"}
 
-const c18Rotating = 7 // further standard packages per quick run, drawn by the seed
+const c18Rotating = 10 // further standard packages per quick run, drawn by the seed
 
 type c18Job struct {
 	ID       int
@@ -63,6 +66,7 @@ type c18Job struct {
 	err      error
 	view     *c18Pkg
 	viewCoq  string
+	viewKeep string
 	refCoq   string
 	obsCoq   [2]string // rendered with compile verdict false / true
 	declKeys []string
@@ -212,7 +216,7 @@ func runC18(args []string) error {
 	}
 
 	// ---------------------------------------------------------------- B. random packages
-	nMain, nRegion := 80, 2
+	nMain, nRegion := 120, 3
 	if *tier == "thorough" {
 		nMain, nRegion = 2000, 25
 	}
@@ -371,8 +375,10 @@ func runC18(args []string) error {
 			oc = j.obsCoq[1]
 		}
 		j.coq = fmt.Sprintf("(%d%%N,\n %s,\n %s,\n %s)", j.ID, j.viewCoq, oc, j.refCoq)
+		j.viewKeep = j.viewCoq
 		j.viewCoq, j.refCoq, j.obsCoq, j.declKeys = "", "", [2]string{}, nil
-		entries = append(entries, entry{j.coq, len(j.coq)})
+		// cost inside Coq: the text, plus the long-precision arithmetic behind float constants with hundreds of digits
+		entries = append(entries, entry{j.coq, len(j.coq) + 150000*len(c18LongNumber.FindAllStringIndex(j.viewKeep, -1))})
 	}
 	sort.SliceStable(entries, func(a, b int) bool { return entries[a].size > entries[b].size })
 	nb, total := 16, 0
@@ -409,7 +415,7 @@ func runC18(args []string) error {
 	}
 	sm.DistinctNontriv = len(distinct)
 	sm.Exhaustive = *tier == "thorough"
-	sm.Rule = "packages: standard library of the installed toolchain (quick: 14 fixed + 7 drawn by the seed; thorough: every importable std package) and seeded random packages (with sibling packages; interfaces embedding interfaces of other packages at depth 1-3; constant values sweeping the printing boundaries of go/constant) " +
+	sm.Rule = "packages: standard library of the installed toolchain (quick: 14 fixed + 10 drawn by the seed; thorough: every importable std package) and seeded random packages (with sibling packages; interfaces embedding interfaces of other packages at depth 1-3; constant values sweeping the printing boundaries of go/constant) " +
 		"(every declaration kind of genContent's switch; region packages with one known defect shape each); each package = one case: the real extractor's output is read back into rows, " +
 		"compared with model Y (all rows, imports, build tag, compile verdict), with the go/types reference (names, forms, bound objects, exact constant values, wrapper signatures, Implements) and compiled by go/types and go build; " +
 		"evaluations = bound rows + wrapper methods + 1 per package; distinct = distinct (import path, exported declaration) pairs"
